@@ -55,8 +55,8 @@ RASTERIZE_EDGES (pixman_image_t  *image,
 	 *
 	 * (The AA case does a similar  adjustment in RENDER_SAMPLES_X)
 	 */
-	lx += X_FRAC_FIRST(1) - pixman_fixed_e;
-	rx += X_FRAC_FIRST(1) - pixman_fixed_e;
+	lx = EDGE_X_ADD (lx, X_FRAC_FIRST(1) - pixman_fixed_e);
+	rx = EDGE_X_ADD (rx, X_FRAC_FIRST(1) - pixman_fixed_e);
 #endif
 	/* clip X */
 	if (lx < 0)
